@@ -376,7 +376,13 @@ def _gen_random(rng, n):
             u = _rand_unit(rng) * 10.0 ** rng.uniform(-5, 5)
             w = _rand_unit(rng) * 10.0 ** rng.uniform(-5, 5)
         # positions: sample at the origin (beams are then exactly u and w) or at an offset
-        if i % 3 == 0:
+        if i % 50 == 0:
+            # a sample a hair away from the origin of the coordinate system, next to a small beamline:
+            # "almost at the origin" is not "at the origin" (these indices are also replayed as scalars)
+            smp = _rand_unit(rng) * 10.0 ** rng.uniform(-10, -8)
+            u = _rand_unit(rng) * 10.0 ** rng.uniform(-6, -4)
+            w = _rand_unit(rng) * 10.0 ** rng.uniform(-6, -4)
+        elif i % 3 == 0:
             smp = _rand_unit(rng) * 10.0 ** rng.uniform(-3, 3)
         else:
             smp = np.zeros(3)
